@@ -298,14 +298,21 @@ func c07ServiceGrid(run *ev.Run) (cells int, carried int, classes map[string]int
 				}
 				// Wallet-level operations.
 				wl := r.Wallets[w].(e2wtypes.WalletLocker)
-				for _, o := range []string{"Lock wallet", "Unlock wallet", "Create account"} {
+				// Wallet operations addressed by the wallet name and by a path with an account suffix (which resolves
+				// to the same wallet: the decision must be taken on the resolved wallet).
+				for _, o := range []string{"Lock wallet", "Unlock wallet", "Create account", "Lock wallet/acc", "Unlock wallet/acc", "Unlock wallet/zzz", "Lock wallet/b"} {
+					addr := w
+					if i := strings.Index(o, "/"); i >= 0 {
+						addr = w + o[i:]
+						o = o[:i]
+					}
 					before := c07Snapshot(r, accts, wallets)
 					var done bool
 					var res core.Result
 					switch o {
 					case "Lock wallet":
 						_ = wl.Unlock(r.Ctx, nil)
-						res, _ = r.WalletMgr.Lock(r.Ctx, creds, w)
+						res, _ = r.WalletMgr.Lock(r.Ctx, creds, addr)
 						u, _ := wl.IsUnlocked(r.Ctx)
 						done = !u
 						before = c07Snapshot(r, accts, wallets)
@@ -315,7 +322,7 @@ func c07ServiceGrid(run *ev.Run) (cells int, carried int, classes map[string]int
 					case "Unlock wallet":
 						_ = wl.Lock(r.Ctx)
 						before = c07Snapshot(r, accts, wallets)
-						res, _ = r.WalletMgr.Unlock(r.Ctx, creds, w, nil)
+						res, _ = r.WalletMgr.Unlock(r.Ctx, creds, addr, nil)
 						u, _ := wl.IsUnlocked(r.Ctx)
 						done = u
 						_ = wl.Lock(r.Ctx)
